@@ -202,6 +202,161 @@ func chanBody(kind, who string, pipeCap int, traffic bool) func(x *harness.X) {
 	}
 }
 
+// topBody: termination through the high-level Client.Close / Server.Close over
+// the real TCP transport (virtual pipes) and the in-process transport.
+func topBody(kind, who string) func(x *harness.X) {
+	return func(x *harness.X) {
+		lib.Reset()
+		s := &st{kind: kind, who: who}
+		x.Vars["st"] = s
+		withTraffic := rt.Choose(2) == 1
+		cfg := lime.NewServerConfig()
+		cfg.Node = lib.ServerNode
+		cfg.SchemeOpts = []lime.AuthenticationScheme{lime.AuthenticationSchemeGuest}
+		cfg.EncryptOpts = []lime.SessionEncryption{lime.SessionEncryptionNone}
+		cfg.Backlog, cfg.ChannelBufferSize = 1, rt.Choose(2)
+		cfg.Authenticate, cfg.Register = lib.GuestOK, lib.RegisterSame
+		var srvChan *lime.ServerChannel
+		cfg.Established = func(id string, c *lime.ServerChannel) { s.estCb++; srvChan = c; x.Obs("established-callback") }
+		cfg.Finished = func(id string) { s.finishedCb++; x.Obs("finished-callback") }
+		smux := &lime.EnvelopeMux{}
+		smux.MessageHandlerFunc(nil, func(ctx context.Context, m *lime.Message, snd lime.Sender) error {
+			x.Obs("server handler got %s", m.ID)
+			return nil
+		})
+		pl := lib.NewPipeListener(nil, 64<<10, 1)
+		inaddr := lime.InProcessAddr("c13top")
+		var bl lime.BoundListener
+		if kind == "tcp" {
+			bl = lime.NewBoundListener(pl, lib.PipeAddr("p"))
+		} else {
+			bl = lime.NewBoundListener(lime.NewInProcessTransportListener(inaddr), inaddr)
+		}
+		srv := lime.NewServer(cfg, smux, bl)
+		lasDone := make(chan struct{})
+		go func() { _ = srv.ListenAndServe(); close(lasDone) }()
+		cmux := &lime.EnvelopeMux{}
+		cmux.MessageHandlerFunc(nil, func(ctx context.Context, m *lime.Message, snd lime.Sender) error {
+			x.Obs("client handler got %s", m.ID)
+			return nil
+		})
+		ccfg := lime.NewClientConfig()
+		ccfg.Node = lime.Node{Identity: lime.Identity{Name: "alice", Domain: "cli.test"}, Instance: "i"}
+		ccfg.ChannelBufferSize = rt.Choose(2)
+		ccfg.CompSelector, ccfg.EncryptSelector, ccfg.Authenticator = lime.NoneCompressionSelector, lime.NoneEncryptionSelector, lime.GuestAuthenticator
+		dials := 0
+		ccfg.NewTransport = func(ctx context.Context) (lime.Transport, error) {
+			dials++
+			if dials > 1 {
+				return nil, fmt.Errorf("connection refused")
+			}
+			if kind == "tcp" {
+				c := pl.Dial()
+				s.cconn = c
+				return lime.NewTCPTransportFromConn(c, nil, false), nil
+			}
+			t, ok := lib.TryDialInProc(inaddr, 1)
+			if !ok {
+				return nil, fmt.Errorf("connection refused")
+			}
+			return t, nil
+		}
+		client := lime.NewClient(ccfg, cmux)
+		ctx, cancel := context.WithTimeout(context.Background(), 60*time.Second)
+		defer cancel()
+		if err := client.Establish(ctx); err != nil {
+			x.Failf("setup", "client could not establish: %v", err)
+			rt.Stop()
+		}
+		rt.Quiesce()
+		if kind == "tcp" && len(pl.Servers) > 0 {
+			s.sconn = pl.Servers[0]
+		}
+		rt.BeginExplore()
+		if withTraffic {
+			go func() {
+				if srvChan != nil {
+					_ = srvChan.SendMessage(ctx, lib.Msg("s-1", "from server"))
+				}
+			}()
+			go func() {
+				// a short deadline: once the server is gone the client would otherwise keep
+				// re-dialling (refused) for as long as this context lives
+				sctx, c2 := context.WithTimeout(context.Background(), 3*time.Second)
+				defer c2()
+				_ = client.SendMessage(sctx, lib.Msg("c-1", "from client"))
+			}()
+		}
+		switch who {
+		case "Client.Close":
+			go func() {
+				s.initErr = client.Close()
+				s.initRet = true
+				x.Obs("Client.Close returned err=%v", s.initErr != nil)
+			}()
+		case "Server.Close":
+			go func() {
+				s.initErr = srv.Close()
+				s.initRet = true
+				x.Obs("Server.Close returned err=%v", s.initErr != nil)
+			}()
+		}
+		for i := 0; i < 3; i++ {
+			rt.Quiesce()
+			time.Sleep(6 * time.Second)
+		}
+		rt.Quiesce()
+		rt.EndExplore()
+		if srvChan != nil {
+			s.scState = srvChan.State()
+		}
+		// release the other high-level endpoint too, then nothing may be left at all
+		if who == "Client.Close" {
+			_ = srv.Close()
+		} else {
+			_ = client.Close()
+		}
+		for i := 0; i < 2; i++ {
+			rt.Quiesce()
+			time.Sleep(6 * time.Second)
+		}
+		rt.Quiesce()
+		s.snap = true
+		rt.Stop()
+	}
+}
+
+func topFinal(x *harness.X, res *rt.Result) {
+	if res.Crash != "" {
+		x.Failf("crash:"+res.CrashSite, "%s", strings.SplitN(res.Crash, "\n", 2)[0])
+		return
+	}
+	s, _ := x.Vars["st"].(*st)
+	if s == nil || !s.snap {
+		return
+	}
+	tag := s.who + ":" + s.kind
+	hist := fmt.Sprintf("[%s; %s]", tag, strings.Join(x.Log(), " | "))
+	if !s.initRet {
+		x.Failf("initiator-blocked:"+tag, "%s never returned %s", s.who, hist)
+	}
+	if s.scState != lime.SessionStateFinished {
+		x.Failf("server-state:"+tag, "the server side of the session ended in state %v, expected finished %s", s.scState, hist)
+	}
+	if s.estCb != 1 || s.finishedCb != 1 {
+		x.Failf(fmt.Sprintf("callbacks:est%d-fin%d:%s", s.estCb, s.finishedCb, tag), "Established fired %d times, Finished %d times for the one session %s", s.estCb, s.finishedCb, hist)
+	}
+	for _, g := range res.Alive {
+		if g.Name == "main" {
+			continue
+		}
+		x.Failf("goroutine-left:"+g.Name+"["+g.PendTag()+"]:"+tag, "goroutine %s (%s) is left behind after both endpoints were closed %s", g.Name, g.PendTag(), hist)
+	}
+	if s.cconn != nil && s.sconn != nil && (!s.cconn.IsClosed() || !s.sconn.IsClosed()) {
+		x.Failf("conn-open:"+tag, "virtual connection not closed on both ends (client %v server %v) %s", s.cconn.IsClosed(), s.sconn.IsClosed(), hist)
+	}
+}
+
 func settle(kind string) {
 	if kind == "tcp" {
 		// pollers notice closure at their 5s I/O timeout at the latest
@@ -299,10 +454,16 @@ func main() {
 			}
 		}
 	}
+	topOpt := opt
+	for _, kind := range []string{"inproc", "tcp"} {
+		for _, who := range []string{"Client.Close", "Server.Close"} {
+			scs = append(scs, harness.Scenario{Name: fmt.Sprintf("top/%s/%s", kind, who), Opt: topOpt, Quick: 1, Thorough: 2, Prune: false, Body: topBody(kind, who), Final: topFinal})
+		}
+	}
 	harness.Main(harness.Check{
 		Property:  "C13",
 		Level:     "model_checking",
-		Rule:      "initiator {client finish, server finish, server fail, server finish/fail issued by the server's only consumer while the client keeps streaming} x transport {in-process (queue 0/1), TCP over virtual pipe} x channel buffer {0,1} x {idle, one message in flight each way}; both sides keep draining their streams; the observer closes its channel when its receiver is done; all schedules within the deviation bound (delay bounding); distinct outcome = distinct observation log",
+		Rule:      "initiator {client finish, server finish, server fail, server finish/fail issued by the server's only consumer while the client keeps streaming} x transport {in-process (queue 0/1), TCP over virtual pipe} x channel buffer {0,1} x {idle, one message in flight each way}; both sides keep draining their streams; the observer closes its channel when its receiver is done; plus top-level scenarios: a real Client and a real Server (handlers registered, idle or one message in flight each way), ended by Client.Close or by Server.Close, after which the other endpoint is closed too and nothing at all may be left; all schedules within the deviation bound (delay bounding); distinct outcome = distinct observation log",
 		Assume:    []string{"WebSocket transports not explored under the scheduler", "the serving side answers a finishing request the way Server.handleChannel does (FinishSession when the receiver is done)"},
 		Scenarios: scs,
 	})
